@@ -512,6 +512,18 @@ def check_identity(chk):
                     chk.ok('C09.I', f'{modname}.{fname}: {norm(call)[:70]} (no options: no budget to account)', trivial=True)
                 elif isinstance(arg, ast.Dict):
                     chk.ok('C09.I', f'{modname}.{fname}: {norm(call)[:70]} starts a run with fresh options', trivial=True)
+                elif isinstance(arg, ast.Name) and any(isinstance(n, ast.With) and any(isinstance(i.optional_vars, ast.Name) and i.optional_vars.id == at for i in n.items) for n in walk_no_nested(func)):
+                    w = next(n for n in walk_no_nested(func) if isinstance(n, ast.With) and any(isinstance(i.optional_vars, ast.Name) and i.optional_vars.id == at for i in n.items))
+                    item = next(i for i in w.items if isinstance(i.optional_vars, ast.Name) and i.optional_vars.id == at)
+                    cls = call_name(item.context_expr) if isinstance(item.context_expr, ast.Call) else None
+                    exit_fn = mod.funcs.get(f'{cls}.__exit__') if cls else None
+                    wb = exit_fn is not None and any((isinstance(x, ast.Call) and isinstance(x.func, ast.Name) and x.func.id in helpers) or
+                                                     (isinstance(x, ast.Assign) and subscript_key(x.targets[0]) and subscript_key(x.targets[0])[1] == KEY) for x in ast.walk(exit_fn))
+                    inside = any(call is x for x in ast.walk(w))
+                    if wb and inside:
+                        chk.ok('C09.I', f'{modname}.{fname}: {norm(call)[:60]} runs under the options of the context manager {cls}, whose __exit__ writes the counter back (on every exit of the with block)')
+                    else:
+                        chk.unrec('C09.I', f'{modname}.{fname}: {norm(call)[:60]} receives {at}, bound by a with statement whose context manager is not understood', mod.rel)
                 elif isinstance(arg, ast.Name) and any(isinstance(n, ast.Assign) and isinstance(n.value, ast.Call) and any(isinstance(t, ast.Name) and t.id == at for t in n.targets) for n in walk_no_nested(func)):
                     chk.unrec('C09.I', f'{modname}.{fname}: {norm(call)[:70]} receives {at}, produced by a call that is not understood', mod.rel)
                 else:
